@@ -73,23 +73,25 @@ def propagated_tol(probe, m, cls):
     r0 = probe.flux_residuals(vp, vm, Tp, Tm)
     spread1 = spread2 = 0.0
     if cls == "detonation":
-        d = 4 * (atol + rtol * Tm)
-        vals = []
+        # brentq on T- with xtol=atol, rtol: sensitivity of the residual to T- over
+        # +-4(atol + rtol T-), (a) with v- following the junction relations, (b) at fixed v-.
+        # Only differences between perturbed evaluations enter, never the reported
+        # residual itself (a wrong v- must not inflate its own tolerance).
+        d = 2 * (atol + rtol * Tm)       # brentq guarantees |root error| <= xtol + rtol|x|
+        h = 1e-7 * Tm                    # small probe step: stay inside the physical domain
+        tot = []
         for s in (-1, 1):
-            Tm2 = Tm + s * d
+            Tm2 = Tm + s * h
             vpvm, vpovm = probe.junction_vm(vp, Tp, Tm2)
-            if vpvm / vpovm <= 0:
-                continue
-            vm2 = math.sqrt(vpvm / vpovm)
-            if not 0 < vm2 < 1:
-                continue
-            vals.append(probe.flux_residuals(vp, vm2, Tp, Tm2))
-        # also the plain sensitivity to T- at fixed v-
-        for s in (-1, 1):
-            vals.append(probe.flux_residuals(vp, vm, Tp, Tm + s * d))
-        for v in vals:
-            spread1 = max(spread1, abs(v[0] - r0[0]))
-            spread2 = max(spread2, abs(v[1] - r0[1]))
+            if vpvm / vpovm > 0 and 0 < math.sqrt(vpvm / vpovm) < 1:
+                tot.append(probe.flux_residuals(vp, math.sqrt(vpvm / vpovm), Tp, Tm2))
+        fix = [probe.flux_residuals(vp, vm, Tp, Tm + s * h) for s in (-1, 1)]
+        for pair in (tot, fix):
+            if len(pair) == 2:
+                spread1 = max(spread1, abs(pair[0][0] - pair[1][0]) / (2 * h) * d)
+                spread2 = max(spread2, abs(pair[0][1] - pair[1][1]) / (2 * h) * d)
+        if len(tot) < 2:
+            raise ValueError("detonation tolerance probe left the physical domain")
     else:
         # hybr works on x = tan(pi (T - mid)/range) and stops on a *relative* step xtol
         # whose numerical value is the object's atol: dT = xtol |x| (range/pi)/(1+x^2)
@@ -175,6 +177,9 @@ def flux_mech(cls, vw, tag="", m=None):
     if tag == "" and m is not None and cls != "detonation":
         if m.get("last_hybr_converged") is False and not m["success_flag"]:
             return "matching-returned-although-not-converged"
+        if m.get("last_hybr_converged") is False and m["success_flag"] and \
+                m.get("last_hybr_sumsq", 1.0) >= 1e-6:
+            return "matching-accepted-with-residual-above-documented-threshold"
         if m.get("last_hybr_converged") is False and m["success_flag"]:
             # hybr reported failure; the result was accepted by the absolute criterion
             # sum(fun^2) < 1e-6 although the equations themselves are O(v^2)
